@@ -12,6 +12,7 @@ let () =
     | "OPL" | "TYPECHK" -> Oplsuite.run
     | "WATCH" -> Watchsuite.run
     | "ROBUST" -> Robustsuite.run
+    | "CONC" -> Concsuite.run
     | s -> failwith ("unknown suite " ^ s) in
   try
     while true do
